@@ -4,6 +4,7 @@ import MaltModel.Spec.Symtable
 import MaltModel.Spec.Dynamic
 import MaltModel.Proofs.C08Activity
 import MaltModel.Proofs.C08Dynamic
+import MaltModel.Proofs.C08Classes
 /-
 C08 — scope (activity) analysis matches Python's own binding rules.
 
@@ -94,6 +95,146 @@ theorem C08_dynamic_lookup (t : Stmt) (hf : FragS t = true) (hu : UniqueAnnos (a
   intro u huu
   obtain ⟨c, hc, hg⟩ := C08_dynamic_partial t hf u huu
   exact ⟨c, by rw [St.anno?, find_of_unique _ hu _ _ _ hc]; rfl, hg⟩
+
+/- FULL STATEMENT (not proved in this generality):
+   theorem C08_classes (t : Stmt) : ∀ fn ∈ fnsS [] t,
+       classification of fn read off the analysis (`classify`: params, bound locals, declared globals, declared
+       nonlocals, free variables) = the one `Spec.table t` assigns to the block `fn`.
+   It is FALSE of the pinned code in the situations named in `Analysis.ActivityHyp` (each reproduced on the real
+   code by the harness and listed in known_findings.d/C08.json): `harmfulLeaks`, `walrusInComp`, `classShadow`,
+   `argAnnotations`, `nonlocalBelow`, `globalBelow`; the Lean counterexample for the parameter leak is
+   `leak_counterexample` below.
+   `C08_classes_partial` proves, for the function at the root of every tree of the fragment, the equality of
+   parameters, bound locals, declared globals and declared nonlocals under `harmfulLeaks t = []` (the other
+   classes concern free variables or lie outside the fragment).
+   Missing: free variables (`frees`); functions nested below the root (the same local argument applies to them
+   through `C08_compositional_state`, what is not proved is the lookup of their annotations by node id);
+   comprehensions and annotated parameters. -/
+
+/-- Declaring a name both `global` and `nonlocal` in one block is a SyntaxError; the hypothesis excludes it. -/
+def declsDisjoint (t : Stmt) : Bool :=
+  match blockOf t with
+  | some b => b.globals.all fun x => !b.nonlocals.contains x
+  | none => true
+
+/-- **Classification of the root function.**  For every function definition `t` of the fragment on which the
+    analysis and Python agree statement by statement (`SpecOkS`), whose nested functions' parameters are all
+    names the function binds anyway (`harmfulLeaks t = []`): the parameters, bound locals, declared globals and
+    declared nonlocals the analysis reports for `t` are exactly those of Python's symbol table for `t`. -/
+theorem C08_classes_partial (i : Nat) (name : String) (ai : Nat) (po ar va ko kd kw df : List Expr) (body : List Stmt)
+    (decos returns : List Expr) (t : Stmt)
+    (ht : t = .functionDef i name (.arguments ai po ar va ko kd kw df) body decos returns false)
+    (hf : FragS t = true) (hs : SpecOkS t = true) (hu : UniqueAnnos (analyze t).annos)
+    (hleak : harmfulLeaks t = []) (hd : declsDisjoint t = true) :
+    ∃ cls info rest, classify t (analyze t) i [] = some cls ∧ Spec.table t = info :: rest ∧ info.id = i ∧
+      (∀ x, x ∈ cls.params ↔ x ∈ info.params) ∧
+      (∀ x, x ∈ cls.locals ↔ x ∈ info.locals) ∧
+      (∀ x, x ∈ cls.globals ↔ x ∈ info.declaredGlobals) ∧
+      (∀ x, x ∈ cls.nonlocals ↔ x ∈ info.declaredNonlocals) := by
+  subst ht
+  -- the model side
+  obtain ⟨cI, ca, rest, hann, hca, hcI, hpar⟩ :=
+    functionDef_recorded i name ai po ar va ko kd kw df body decos returns St.init [] init_plainS hf
+  have hann' : (analyze (.functionDef i name (.arguments ai po ar va ko kd kw df) body decos returns false)).annos
+      = (i, .argsAndBodyScope, cI) :: rest := hann
+  have h1 : (analyze (.functionDef i name (.arguments ai po ar va ko kd kw df) body decos returns false)).anno? i .argsAndBodyScope
+      = some cI := by simp [St.anno?, hann']
+  have h2 : (analyze (.functionDef i name (.arguments ai po ar va ko kd kw df) body decos returns false)).anno? ai .scope
+      = some ca := by
+    rw [St.anno?, find_of_unique _ hu ai .scope ca (by rw [hann']; exact List.mem_cons_of_mem _ hca)]; rfl
+  simp only [FragS, Bool.and_eq_true, Bool.not_eq_true'] at hf
+  have hbody : FragSs body = true := hf.2
+  simp only [SpecOkS] at hs
+  have hM := effSs_sets body hbody [.fn i name]
+  -- the specification side
+  have hblk := blockOf_functionDef i name ai po ar va ko kd kw df body decos returns false
+  have hC := collectSs_spec body hbody hs { params := (po ++ ar ++ ko ++ va ++ kw).filterMap paramName }
+  obtain ⟨new, hnew, hcov⟩ := hC.children
+  obtain ⟨info, irest, htab, hid, hip, hil, hig, hin⟩ :=
+    analyzeBlock_head i .function name
+      (collectSs body { params := (po ++ ar ++ ko ++ va ++ kw).filterMap paramName }).params
+      (collectSs body { params := (po ++ ar ++ ko ++ va ++ kw).filterMap paramName }).binds
+      (collectSs body { params := (po ++ ar ++ ko ++ va ++ kw).filterMap paramName }).globals
+      (collectSs body { params := (po ++ ar ++ ko ++ va ++ kw).filterMap paramName }).nonlocals
+      (collectSs body { params := (po ++ ar ++ ko ++ va ++ kw).filterMap paramName }).uses
+      (collectSs body { params := (po ++ ar ++ ko ++ va ++ kw).filterMap paramName }).walrus
+      (collectSs body { params := (po ++ ar ++ ko ++ va ++ kw).filterMap paramName }).children
+  have hP : ∀ x, x ∈ (collectSs body { params := (po ++ ar ++ ko ++ va ++ kw).filterMap paramName }).params ↔
+      x ∈ paramStrs po ar va ko kw := by
+    intro x; rw [hC.params]; exact mem_specParams_iff po ar va ko kw x
+  have hB : ∀ x, x ∈ (collectSs body { params := (po ++ ar ++ ko ++ va ++ kw).filterMap paramName }).binds ↔ x ∈ ownBindsSs body := by
+    intro x; rw [hC.binds]; simp [show ({ params := (po ++ ar ++ ko ++ va ++ kw).filterMap paramName } : Acc).binds = [] from rfl]
+  have hG : ∀ x, x ∈ (collectSs body { params := (po ++ ar ++ ko ++ va ++ kw).filterMap paramName }).globals ↔ x ∈ ownDeclsSs true body := by
+    intro x; rw [hC.globals]; simp [show ({ params := (po ++ ar ++ ko ++ va ++ kw).filterMap paramName } : Acc).globals = [] from rfl]
+  have hN : ∀ x, x ∈ (collectSs body { params := (po ++ ar ++ ko ++ va ++ kw).filterMap paramName }).nonlocals ↔ x ∈ ownDeclsSs false body := by
+    intro x; rw [hC.nonlocals]; simp [show ({ params := (po ++ ar ++ ko ++ va ++ kw).filterMap paramName } : Acc).nonlocals = [] from rfl]
+  have hW : (collectSs body { params := (po ++ ar ++ ko ++ va ++ kw).filterMap paramName }).walrus = [] := hC.walrus
+  -- leaked parameters are names the function declares anyway
+  have hL : ∀ x, x ∈ ownLeaksSs body → x ∈ paramStrs po ar va ko kw ∨ x ∈ ownBindsSs body ∨ x ∈ ownDeclsSs true body ∨ x ∈ ownDeclsSs false body := by
+    intro x hx
+    by_cases hdec : x ∈ (collectSs body { params := (po ++ ar ++ ko ++ va ++ kw).filterMap paramName }).params ++
+        (collectSs body { params := (po ++ ar ++ ko ++ va ++ kw).filterMap paramName }).binds ++
+        (collectSs body { params := (po ++ ar ++ ko ++ va ++ kw).filterMap paramName }).globals ++
+        (collectSs body { params := (po ++ ar ++ ko ++ va ++ kw).filterMap paramName }).nonlocals
+    · simp only [List.mem_append, hP, hB, hG, hN] at hdec
+      grind
+    · exfalso
+      have hmem := hcov _ x hx hdec
+      have hnil : leaksBs ((collectSs body { params := (po ++ ar ++ ko ++ va ++ kw).filterMap paramName }).params ++
+          (collectSs body { params := (po ++ ar ++ ko ++ va ++ kw).filterMap paramName }).binds ++
+          (collectSs body { params := (po ++ ar ++ ko ++ va ++ kw).filterMap paramName }).globals ++
+          (collectSs body { params := (po ++ ar ++ ko ++ va ++ kw).filterMap paramName }).nonlocals)
+          (collectSs body { params := (po ++ ar ++ ko ++ va ++ kw).filterMap paramName }).children = [] := by
+        have := hleak
+        simp only [harmfulLeaks, hblk, Acc.toBlock] at this
+        apply List.eq_nil_iff_forall_not_mem.mpr
+        intro y hy
+        have h3 := List.mem_eraseDups.mpr hy
+        rw [this] at h3
+        exact List.not_mem_nil h3
+      rw [hnew] at hnil
+      simp only [List.nil_append] at hnil
+      rw [hnil] at hmem
+      simp at hmem
+  have hdisj : ∀ x, ¬ (x ∈ ownDeclsSs true body ∧ x ∈ ownDeclsSs false body) := by
+    intro x ⟨hg, hn⟩
+    simp only [declsDisjoint, hblk, Acc.toBlock, Block.globals, Block.nonlocals, List.all_eq_true] at hd
+    have := hd x ((hG x).mpr hg)
+    have hx2 := (hN x).mpr hn
+    simp only [List.contains_eq_mem, hx2, decide_true, Bool.not_true, Bool.false_eq_true] at this
+  have hcls : ∃ cls, classify (.functionDef i name (.arguments ai po ar va ko kd kw df) body decos returns false)
+      (analyze (.functionDef i name (.arguments ai po ar va ko kd kw df) body decos returns false)) i [] = some cls ∧
+      cls.params = ca.paramNames.names ∧ cls.globals = cI.globals.names ∧ cls.nonlocals = cI.nonlocals.names ∧
+      cls.locals = cI.bound.names.filter (fun x => !cI.globals.names.contains x && !cI.nonlocals.names.contains x) := by
+    refine ⟨_, ?_, ?_, ?_, ?_, ?_⟩
+    · simp only [classify, h1, argsIdS, beq_self_eq_true, ↓reduceIte, Option.bind_some, Expr.id, h2]
+    all_goals rfl
+  obtain ⟨cls, hc0, hcp, hcg, hcn, hcl⟩ := hcls
+  refine ⟨cls, info, irest, hc0, ?_, hid, ?_, ?_, ?_, ?_⟩
+  · simp only [Spec.table, hblk, Acc.toBlock]; exact htab
+  · intro x
+    rw [hcp]
+    simp only [QSet.mem_names, hip, hP]
+    rw [hpar, mem_paramNames_iff]
+  · intro x
+    rw [hcl]
+    simp only [List.mem_filter, QSet.mem_names, hil, hP, hB, hG, hN, hW, Bool.and_eq_true, Bool.not_eq_true',
+      List.contains_eq_mem, decide_eq_false_iff_not, hcI.bound, hcI.globals, hcI.nonlocals, Eff.append_bound,
+      Eff.exported_false_bound, Eff.append_globals, Eff.exported_false_globals, Eff.append_nonlocals,
+      Eff.exported_false_nonlocals, List.mem_append, hM.bound, hM.globals, hM.nonlocals, mem_paramNames_iff, List.not_mem_nil,
+      not_false_eq_true, true_and, List.nil_append]
+    have := hL x
+    grind
+  · intro x
+    rw [hcg]
+    simp only [QSet.mem_names, hig, hG, hcI.globals, Eff.append_globals, Eff.exported_false_globals, List.mem_append,
+      hM.globals, List.not_mem_nil, false_or]
+  · intro x
+    rw [hcn]
+    simp only [QSet.mem_names, hin, hG, hN, hW, hcI.nonlocals, Eff.append_nonlocals, Eff.exported_false_nonlocals,
+      List.mem_append, hM.nonlocals, List.not_mem_nil, false_or, or_false]
+    have := hdisj x
+    grind
 
 /-! ### instances: the hypotheses are satisfiable, the exclusions are necessary -/
 
